@@ -194,11 +194,11 @@ func tokWorker(w *pool.W, arg json.RawMessage) {
 }
 
 type byteShard struct {
-	Mode  int    `json:"mode"`
-	Stem  int    `json:"stem"`
-	Len   int    `json:"len"`
-	First int    `json:"first"` // first byte value (-1: none fixed)
-	Hot   bool   `json:"hot"`
+	Mode  int  `json:"mode"`
+	Stem  int  `json:"stem"`
+	Len   int  `json:"len"`
+	First int  `json:"first"` // first byte value (-1: none fixed)
+	Hot   bool `json:"hot"`
 }
 
 func byteWorker(w *pool.W, arg json.RawMessage) {
@@ -630,9 +630,13 @@ func main() {
 	if !quick {
 		maxLen, coreLen = 4, 5
 	}
+	_ = coreLen
+	// quick: every string of <= 3 tokens after every stem in both modes.
+	// thorough: additionally length 4 over the full alphabet after the empty stem of each mode and
+	// over the 24-token core after the other stems, and length 5 over the core (plain mode, no stem).
 	for mode := 0; mode < 2; mode++ {
 		for st := range stems(mode) {
-			for l := 0; l <= maxLen; l++ {
+			for l := 0; l <= 3; l++ {
 				if l < 3 {
 					shards = append(shards, pool.Shard{Kind: "tok", Arg: tokShard{Mode: mode, Stem: st, Len: l}})
 					continue
@@ -641,10 +645,22 @@ func main() {
 					shards = append(shards, pool.Shard{Kind: "tok", Arg: tokShard{Mode: mode, Stem: st, Len: l, Prefix: []int{a}}})
 				}
 			}
-			if coreLen > 0 {
+			if quick {
+				continue
+			}
+			if st == 0 {
+				for a := range alphabet {
+					shards = append(shards, pool.Shard{Kind: "tok", Arg: tokShard{Mode: mode, Stem: st, Len: 4, Prefix: []int{a}}})
+				}
+			} else {
+				for _, a := range coreIdx {
+					shards = append(shards, pool.Shard{Kind: "tok", Arg: tokShard{Mode: mode, Stem: st, Len: 4, Prefix: []int{a}, Core: true}})
+				}
+			}
+			if mode == 0 && st == 0 {
 				for _, a := range coreIdx {
 					for _, b := range coreIdx {
-						shards = append(shards, pool.Shard{Kind: "tok", Arg: tokShard{Mode: mode, Stem: st, Len: coreLen, Prefix: []int{a, b}, Core: true}})
+						shards = append(shards, pool.Shard{Kind: "tok", Arg: tokShard{Mode: mode, Stem: st, Len: 5, Prefix: []int{a, b}, Core: true}})
 					}
 				}
 			}
